@@ -177,6 +177,19 @@ pub fn run_op(op: &str, a: &[Tok]) -> String {
             };
             fmt_unit(&ms.verify(MultiPublicKey::<C>(tok_pk(&a[2])), a[3].bytes()))
         }
+        // ---- trait-level entry points no wrapper type calls ----
+        "trait_multi_sig_verify" => {
+            let keys: Vec<<C as Pairing>::PublicKey> = a[0].list().iter().map(tok_pk).collect();
+            fmt_unit(&<C as BlsSignaturePop>::multi_sig_verify(keys.into_iter(), tok_sig(&a[1]), a[2].bytes()))
+        }
+        "trait_partial_verify" => {
+            let pk = pks(&a[1]);
+            let sg = sigshare(a[0].scheme(), &a[2]);
+            match a[0].scheme() {
+                0 => fmt_unit(&<C as BlsSignatureBasic>::partial_verify(pk.0, *sg.as_raw_value(), a[3].bytes())),
+                _ => fmt_unit(&<C as BlsSignaturePop>::partial_verify(pk.0, *sg.as_raw_value(), a[3].bytes())),
+            }
+        }
         "multi_pk" => {
             let keys: Vec<PublicKey<C>> =
                 a[0].list().iter().map(|t| PublicKey::<C>(tok_pk(t))).collect();
